@@ -364,3 +364,90 @@ func init() {
 		return sched.Config{Bounds: b, Iterative: true}, c02splitBody
 	}})
 }
+
+// ---------------------------------------------------------------------------
+// Race pass (assumption check of the schedule exploration): the children of multi-key requests completed by
+// real goroutines, and the compression filter used by two goroutines, in a binary built with the race
+// detector. The controlled scheduler serialises threads, so an unsynchronised read-modify-write between two
+// instrumented operations is invisible to it; the race detector sees exactly that.
+// ---------------------------------------------------------------------------
+
+func c02splitRace() {
+	for kind := 0; kind < 3; kind++ {
+		for n := 2; n <= 4; n++ {
+			var raw *rawRequest
+			var children []*simpleRequest
+			var replies []*RespValue
+			args := []string{[]string{"mset", "mget", "del"}[kind]}
+			for i := 0; i < n; i++ {
+				args = append(args, fmt.Sprintf("k%d", i))
+				if kind == 0 {
+					args = append(args, "v")
+				}
+			}
+			raw = newRawRequest(newStringArray(args...))
+			switch kind {
+			case 0:
+				r, _ := newMSetRequest(raw)
+				children = r.Split()
+			case 1:
+				r, _ := newMGetRequest(raw)
+				children = r.Split()
+			case 2:
+				r, _ := newSumResultRequest(raw)
+				children = r.Split()
+			}
+			for i := range children {
+				switch kind {
+				case 0:
+					replies = append(replies, newSimpleString("OK"))
+				case 1:
+					replies = append(replies, newBulkString(fmt.Sprintf("v%d", i)))
+				case 2:
+					if i%2 == 0 {
+						replies = append(replies, newInteger(1))
+					} else {
+						replies = append(replies, newError("ERR x"))
+					}
+				}
+			}
+			start := make(chan struct{})
+			for i := range children {
+				i := i
+				go func() { <-start; children[i].SetResponse(replies[i]) }()
+			}
+			close(start)
+			raw.Wait()
+			_ = raw.Response().Type
+		}
+	}
+}
+
+func c13filterRace() {
+	cfg := vfConfig(0, c13cps(true, 8))
+	done := make(chan struct{}, 2)
+	for g := 0; g < 2; g++ {
+		g := g
+		go func() {
+			chain := newRequestFilterChain()
+			chain.AddFilter(newCompressFilter(cfg))
+			for i := 0; i < 3; i++ {
+				v := c13pattern([]string{"run", "text"}[g], 300+i)
+				req := newSimpleRequest(newStringArray("set", "k", string(v)))
+				chain.Do(req)
+				rd := newSimpleRequest(newStringArray("get", "k"))
+				chain.Do(rd)
+				rd.SetResponse(newBulkBytes(append([]byte{}, req.Body().Array[2].Text...)))
+				_ = rd.Response()
+			}
+			done <- struct{}{}
+		}()
+	}
+	<-done
+	<-done
+}
+
+func init() {
+	sched.Register(&sched.Scenario{Name: "C02/split-race", Race: c02splitRace})
+	sched.Register(&sched.Scenario{Name: "C13/filter-race", Race: c13filterRace})
+}
